@@ -81,6 +81,7 @@ type Exec struct {
 	top       *ssa.Function
 	scope     string // package whose interface contracts apply (lemmas: the lemma's package)
 	freshScan map[*ssa.Function]map[string]bool
+	inferBusy map[*ssa.Function]bool
 	topC      *FuncContract
 	safety    bool
 	ovfCheck  bool
